@@ -46,6 +46,7 @@ Example C11_equiv_nonvacuous : forall o, (o = opts_std \/ o = opts_default) ->
             sonic_unmarshal h1 OptFast o ex_ty ex11_in ex_v0 = sonic_unmarshal h1 Jit o ex_ty ex11_in ex_v0 /\
             exists r, sonic_unmarshal h1 Jit o ex_ty ex11_in ex_v0 = Ok r.
 Proof. exact equiv_example. Qed.
+Print Assumptions C11_equiv_nonvacuous.
 
 (* ------------------------------------------------------------------ divergences the faithful model contains
    (each witness is replayed on the three real back ends from corpus/C01; known_findings.d/C11.json) *)
@@ -57,11 +58,13 @@ Theorem C11_float_inf_refuted :
   sonic_unmarshal h1 Jit opts_std (TStruct (fld "a" (TInt I64) FNil)) (b "{""zz"":1e400}") (VList [VInt 0] []) = Ok (VList [VInt 0] []) /\
   sonic_unmarshal h1 Opt opts_std (TStruct (fld "a" (TInt I64) FNil)) (b "{""zz"":1e400}") (VList [VInt 0] []) = Err.
 Proof. exact float_inf_refuted. Qed.
+Print Assumptions C11_float_inf_refuted.
 
 Theorem C11_slice_null_element_refuted :
   sonic_unmarshal h1 Jit opts_std (TSlice TStr) (b "[null]") VNil = Ok (VList [VStr []] []) /\
   sonic_unmarshal h1 Opt opts_std (TSlice TStr) (b "[null]") VNil = Err.
 Proof. exact slice_null_element_refuted. Qed.
+Print Assumptions C11_slice_null_element_refuted.
 
 Theorem C11_slice_grow_refuted :
   let t := TSlice (TStruct (fld "A" (TInt I64) (fld "B" (TInt I64) FNil))) in
@@ -70,11 +73,13 @@ Theorem C11_slice_grow_refuted :
   sonic_unmarshal h1 Jit opts_std t s v = Ok (VList [VList [VInt 1; VInt 8] []; VList [VInt 2; VInt 0] []] []) /\
   sonic_unmarshal h1 Opt opts_std t s v = Ok (VList [VList [VInt 1; VInt 0] []; VList [VInt 2; VInt 0] []] []).
 Proof. exact slice_grow_refuted. Qed.
+Print Assumptions C11_slice_grow_refuted.
 
 Theorem C11_map_string_null_refuted :
   sonic_unmarshal h1 Jit opts_std (TMap KStr TStr) (b "{""k"":null}") VNil = Ok (VMap [(VStr (b "k"), VStr [])]) /\
   sonic_unmarshal h1 Opt opts_std (TMap KStr TStr) (b "{""k"":null}") VNil = Err.
 Proof. exact map_string_null_refuted. Qed.
+Print Assumptions C11_map_string_null_refuted.
 
 (* repaired divergences (afd5482, 39e707a) now agree *)
 Theorem C11_u32_key_and_f32_edge_agree :
@@ -83,8 +88,10 @@ Theorem C11_u32_key_and_f32_edge_agree :
   sonic_unmarshal h1 Jit opts_std TF32 (b "3.4028235e38") (VFlt 0) = Ok (VFlt 2139095039) /\
   sonic_unmarshal h1 Opt opts_std TF32 (b "3.4028235e38") (VFlt 0) = Ok (VFlt 2139095039).
 Proof. exact u32_key_and_f32_edge_agree. Qed.
+Print Assumptions C11_u32_key_and_f32_edge_agree.
 
 Theorem C11_ptrptr_null_refuted :
   sonic_unmarshal h1 Jit opts_std (TPtr (TPtr TUnm)) (b "null") VNil = Err /\
   sonic_unmarshal h1 Opt opts_std (TPtr (TPtr TUnm)) (b "null") VNil = Ok VNil.
 Proof. exact ptrptr_null_refuted_11. Qed.
+Print Assumptions C11_ptrptr_null_refuted.
